@@ -134,7 +134,8 @@ def _load(prop):
 
 def _unit(args):
     """Worker: explore one (harness, cfg) unit."""
-    prop, hidx, cidx, cfg, tier, seed = args
+    prop, hidx, cidx, cfg, tier, seed = args[:6]
+    concrete_only = len(args) > 6 and args[6] == 'concrete-only'
     t0 = time.time()
     out = dict(hidx=hidx, cidx=cidx, cfg=cfg, error=None, sat=[], paths=0,
                decisions=0, obligations=0, discharged=0, by={}, unknown=[],
@@ -254,6 +255,8 @@ def _unit(args):
         except (ValueError, AttributeError):     # not in a main thread
             old_handler = None
         try:
+            if concrete_only:
+                raise _HardCap()
             with npfacade.inject(*mods, names=names):
                 try:
                     core.explore(lambda ctx: h.sym(ctx, cfg), timeout_ms=tmo,
@@ -266,7 +269,10 @@ def _unit(args):
         except _HardCap:
             out['unknown'].append(dict(
                 name='bound-exceeded',
-                detail='hard wall-clock cap of the work unit (%d s) reached '
+                detail='hard wall-clock cap of the work unit reached (the '
+                'worker was killed inside a solver call and the unit re-run '
+                'for its concrete oracle only)' if concrete_only else
+                'hard wall-clock cap of the work unit (%d s) reached '
                 'outside a solver call' % (int(wall * 1.25) + 30)))
         finally:
             if old_handler is not None:
@@ -357,6 +363,99 @@ def load_known(prop):
     return out
 
 
+def _child(conn, unit):
+    try:
+        conn.send(_unit(unit))
+    except BaseException as e:      # noqa
+        try:
+            conn.send(dict(hidx=unit[1], cidx=unit[2], cfg=unit[3],
+                           error='worker failed: %r' % (e, ), sat=[], paths=0,
+                           decisions=0, obligations=0, discharged=0, by={},
+                           unknown=[], reach=0, reach_unknown=0, degraded=[],
+                           samples=[], exceptions={}, concrete=0, stats=None,
+                           notes=[], wall_s=0))
+        except Exception:            # noqa
+            pass
+    finally:
+        conn.close()
+
+
+def _run_units(units, jobs, harnesses):
+    """one forked process per work unit with a HARD deadline enforced by the
+    parent (z3 does not always honour its timeout, and cannot always be
+    interrupted): a unit that overruns is killed and run again for its
+    concrete oracle only; its symbolic part is reported as not decided."""
+    ctx = mp.get_context('fork')
+    pending = list(units)[::-1]
+    running = []
+    results = []
+    while pending or running:
+        while pending and len(running) < jobs:
+            u = pending.pop()
+            h = harnesses[u[1]]
+            tier = u[4]
+            wall = h.unit_wall_s[tier] if isinstance(h.unit_wall_s, dict) \
+                else h.unit_wall_s
+            limit = wall * 1.5 + 90
+            if len(u) > 6:
+                limit = wall + 120
+            pc, cc = ctx.Pipe(duplex=False)
+            p = ctx.Process(target=_child, args=(cc, u), daemon=True)
+            p.start()
+            cc.close()
+            running.append([p, pc, u, time.time() + limit])
+        progressed = False
+        for item in list(running):
+            p, pc, u, dead = item
+            got = None
+            try:
+                if pc.poll():
+                    got = pc.recv()
+            except (EOFError, OSError):
+                got = None
+                if not p.is_alive():
+                    got = dict(hidx=u[1], cidx=u[2], cfg=u[3], sat=[],
+                               error='worker died without a result', paths=0,
+                               decisions=0, obligations=0, discharged=0,
+                               by={}, unknown=[], reach=0, reach_unknown=0,
+                               degraded=[], samples=[], exceptions={},
+                               concrete=0, stats=None, notes=[], wall_s=0)
+            if got is not None:
+                results.append(got)
+                p.join(1)
+                running.remove(item)
+                progressed = True
+            elif not p.is_alive() and not pc.poll():
+                results.append(dict(
+                    hidx=u[1], cidx=u[2], cfg=u[3], sat=[],
+                    error='worker died without a result (exit code %r)' %
+                    (p.exitcode, ), paths=0, decisions=0, obligations=0,
+                    discharged=0, by={}, unknown=[], reach=0, reach_unknown=0,
+                    degraded=[], samples=[], exceptions={}, concrete=0,
+                    stats=None, notes=[], wall_s=0))
+                running.remove(item)
+                progressed = True
+            elif time.time() > dead:
+                p.kill()
+                p.join(2)
+                running.remove(item)
+                progressed = True
+                if len(u) > 6:
+                    results.append(dict(
+                        hidx=u[1], cidx=u[2], cfg=u[3], sat=[],
+                        error='work unit killed at its hard deadline (also '
+                        'in concrete-only mode)', paths=0, decisions=0,
+                        obligations=0, discharged=0, by={}, unknown=[],
+                        reach=0, reach_unknown=0, degraded=[], samples=[],
+                        exceptions={}, concrete=0, stats=None, notes=[],
+                        wall_s=0))
+                else:
+                    pending.append(tuple(u) + ('concrete-only', ))
+        if not progressed:
+            time.sleep(0.02)
+    return results
+
+
 def run_check(prop, tier='quick', only=None, jobs=None):
     t0 = time.time()
     seed = int(os.environ.get('VERIF_SEED', '0') or 0)
@@ -375,10 +474,7 @@ def run_check(prop, tier='quick', only=None, jobs=None):
         for u in units:
             results.append(_unit(u))
     else:
-        ctx = mp.get_context('fork')
-        with ctx.Pool(jobs, maxtasksperchild=8) as pool:
-            for r in pool.imap_unordered(_unit, units, chunksize=1):
-                results.append(r)
+        results = _run_units(units, jobs, harnesses)
     results.sort(key=lambda r: (r['hidx'], r['cidx']))
 
     known = load_known(prop)
